@@ -16,6 +16,10 @@ type ResourceListBuilder struct {
 	// blankNodeReferrer is the subject of the most recent statement whose object is the blank node; it is the only
 	// referrer when the blank node has a single reference.
 	blankNodeReferrer map[rdf.BlankNodeIdentifier]rdf.SubjectValue
+
+	// pinnedBlankNodes must keep their identity (they are used outside of this builder's graph); they are neither
+	// nested nor exported anonymously. It may be nil.
+	pinnedBlankNodes map[rdf.BlankNodeIdentifier]struct{}
 }
 
 var _ triples.GraphWriter = &ResourceListBuilder{}
@@ -108,7 +112,7 @@ func (rb *ResourceListBuilder) ExportResource(s rdf.SubjectValue, opts ExportRes
 	statements := rb.ExportResourceStatements(s, opts)
 
 	if opts.UseAnonResource {
-		if sBlankNode, ok := s.(rdf.BlankNode); ok && rb.GetBlankNodeReferences(sBlankNode) == 0 {
+		if sBlankNode, ok := s.(rdf.BlankNode); ok && rb.GetBlankNodeReferences(sBlankNode) == 0 && !rb.isPinned(sBlankNode) {
 			return AnonResource{
 				Statements: statements,
 			}
@@ -127,6 +131,8 @@ func (rb *ResourceListBuilder) ExportResource(s rdf.SubjectValue, opts ExportRes
 func (rb *ResourceListBuilder) isInlined(bn rdf.BlankNode) bool {
 	if rb.blankNodeReferences[bn.Identifier] != 1 {
 		return false
+	} else if _, pinned := rb.pinnedBlankNodes[bn.Identifier]; pinned {
+		return false
 	}
 
 	seen := map[rdf.BlankNodeIdentifier]struct{}{
@@ -135,7 +141,7 @@ func (rb *ResourceListBuilder) isInlined(bn rdf.BlankNode) bool {
 
 	for referrer := rb.blankNodeReferrer[bn.Identifier]; ; {
 		referrerBlankNode, ok := referrer.(rdf.BlankNode)
-		if !ok || rb.blankNodeReferences[referrerBlankNode.Identifier] != 1 {
+		if !ok || rb.blankNodeReferences[referrerBlankNode.Identifier] != 1 || rb.isPinned(referrerBlankNode) {
 			return true
 		} else if _, cycle := seen[referrerBlankNode.Identifier]; cycle {
 			return false
@@ -144,6 +150,12 @@ func (rb *ResourceListBuilder) isInlined(bn rdf.BlankNode) bool {
 		seen[referrerBlankNode.Identifier] = struct{}{}
 		referrer = rb.blankNodeReferrer[referrerBlankNode.Identifier]
 	}
+}
+
+func (rb *ResourceListBuilder) isPinned(bn rdf.BlankNode) bool {
+	_, pinned := rb.pinnedBlankNodes[bn.Identifier]
+
+	return pinned
 }
 
 func (rb *ResourceListBuilder) ExportResourceStatements(subject rdf.SubjectValue, opts ExportResourceOptions) StatementList {
